@@ -212,11 +212,11 @@ Section Finalize.
       { destruct HR5 as (Hf5 & _). destruct s5 as [[b c o f lg] off buf]. cbn [pw_dev d_fault] in Hf5. subst f.
         rewrite bytes_seek. destruct (x_flush b c o lg off buf) as (o' & E). rewrite E. reflexivity. }
       rewrite Vf in Hk. cbn [fst] in Hk. rewrite Hbf in Hk.
-      cbn [pw_step] in V6. unfold bind in V6.
-      destruct (pw_physical_seek 0 s5) as [sx [[]|e|]] eqn:Es; cbn [ret] in V6;
-        injection V6 as <- _ || discriminate V6. exact Hk. }
+      cbn [pw_step] in V6. unfold bind, ret in V6. rewrite Hacc in V6. cbn [snd] in V6.
+      destruct (pw_physical_seek 0 s5) as [sx [[]|e|]] eqn:Es;
+        [injection V6 as <-; exact Hk|discriminate V6|discriminate V6]. }
     (* the seven small writes of the header *)
-    rewrite wrun_bind.
+    fold xo. rewrite wrun_bind.
     destruct (R_wrun _ (header_write pl xo (len xml)) s6 (mkLs data4 0) HR6) as [HR7 Hres7].
     unfold header_write in HR7, Hres7. rewrite wr_all_spec in HR7, Hres7. cbn [fst snd] in HR7, Hres7.
     fold (header_write pl xo (len xml)) in HR7, Hres7. fold (hdr pl xo (len xml)) in HR7.
@@ -233,9 +233,10 @@ Section Finalize.
     cbn [ls_step fst snd wlift res_map wrun] in *.
     split; [reflexivity|].
     (* what it wrote *)
-    pose proof HR7 as HR7'.
-    R_elim HR7' s7 l7. cbn [pw_dev d_log d_bytes] in *.
-    pose proof HR7' as HI7.
+    pose proof HR7 as (Hf7 & np & pg & dl & HI7).
+    destruct s7 as [[b c o f lg] off buf].
+    cbn [pw_dev d_fault d_bytes d_cur pw_off pw_buf ls_data ls_pos] in Hf7, HI7. subst f.
+    cbn [pw_dev d_log d_bytes] in *.
     destruct HI7 as [Hb Hdl Hc Hpg Hoff Hbuf Hpos7 Hbd Hdd Hpages].
     assert (Hpg0 : pg = 0) by lia. assert (Hoff48 : off = 48) by lia. assert (Hc0 : c = 0) by lia.
     destruct (x_flush b c o lg off buf) as (o8 & E8).
@@ -250,13 +251,149 @@ Section Finalize.
     rewrite Hs8, E9 in V9. injection V9 as <-.
     unfold flush_log. replace (0 <? off) with true by (symmetry; apply N.ltb_lt; lia).
     cbn [pw_dev d_log d_bytes] in *.
-    rewrite seal_idem by exact Hbuf. subst c.
+    rewrite seal_idem by exact Hbuf. subst c. subst pg. change (1024 * 0) with 0 in *.
     exists lg, (seal buf). split; [reflexivity|].
-    rewrite <- Hk7. split; [exact Hlog6|].
+    rewrite Hk7. split; [exact Hlog6|].
     split; [rewrite <- Hb6; symmetry; exact Hrep6|].
-    split; [exact Hb9|].
+    split.
+    { replace (0 <? off) with true in Hb9 by (symmetry; apply N.ltb_lt; lia).
+      rewrite seal_idem in Hb9 by exact Hbuf. exact Hb9. }
     split; [apply len_seal, Hbuf|].
     split; [|apply seal_crc, Hbuf].
-    intros j Hj. rewrite nthN_seal by assumption. rewrite Hbd by exact Hj. f_equal. lia.
+    intros j Hj. rewrite nthN_seal by assumption. rewrite Hbd by exact Hj. f_equal; lia.
   Qed.
 End Finalize.
+
+(** * The whole program *)
+
+Lemma init_spec : wrun_spec writer_init ls_init = (mkLs hdr0 48, Ok tt).
+Proof. vm_compute. reflexivity. Qed.
+
+Lemma init_run : snd (wrun writer_init pw0) = Ok tt /\ d_log (pw_dev (fst (wrun writer_init pw0))) = [].
+Proof. vm_compute. split; reflexivity. Qed.
+
+Lemma z2440_hdr0 : z2440 hdr0.
+Proof.
+  assert (H : forallb (fun j => nthN (N.of_nat j) hdr0 =? 0) (seq 24 16) = true) by (vm_compute; reflexivity).
+  rewrite forallb_forall in H. intros j H1 H2.
+  specialize (H (N.to_nat j)). rewrite N2Nat.id in H. apply N.eqb_eq, H, in_seq. lia.
+Qed.
+
+Lemma drop_log_ok s l :
+  R s l -> z2440 (ls_data l) -> log_ok (d_log (pw_dev s)) -> log_ok (d_log (pw_dev (fst (pw_drop s)))).
+Proof.
+  intros HR Hz Hlg. unfold pw_drop. rewrite fst_ignore_err. R_elim HR s l.
+  destruct (x_flush b c o lg off buf) as (o' & E). rewrite E. cbn [fst pw_dev d_log] in *.
+  eapply log_ok_flush; eassumption.
+Qed.
+
+Lemma slice_overwrite_same data pos bs : slice pos (len bs) (overwrite data pos bs) = bs.
+Proof.
+  apply list_ext.
+  - rewrite len_slice, len_overwrite. lia.
+  - intros i Hi. rewrite len_slice, len_overwrite in Hi.
+    rewrite nthN_slice, nthN_overwrite.
+    destruct (N.ltb_spec i (len bs)); [|lia].
+    destruct (N.ltb_spec (pos + i) pos); [lia|].
+    destruct (N.ltb_spec (pos + i) (pos + len bs)); [|lia]. f_equal. lia.
+Qed.
+
+(** the state in which [finalize] starts, when the sections were written without error *)
+Record before_finalize (is : list item) (s2 : pw) (l2 : lstream) : Prop := mkBF {
+  bf_R : R s2 l2;
+  bf_pos : 48 <= ls_pos l2;
+  bf_z : z2440 (ls_data l2);
+  bf_log : log_ok (d_log (pw_dev s2));
+  bf_rep : replay_ok (pw_dev s2);
+  bf_hdr : forall j, j < 48 -> nthN j (ls_data l2) = nthN j hdr0;
+  bf_len : 48 <= len (ls_data l2)
+}.
+
+Lemma items_run is :
+  let s1 := fst (wrun writer_init pw0) in
+  let s2 := fst (wrun (items_write is) s1) in
+  let l2 := fst (wrun_spec (items_write is) (mkLs hdr0 48)) in
+  R s2 l2 /\ z2440 (ls_data l2) /\ log_ok (d_log (pw_dev s2)) /\ replay_ok (pw_dev s2) /\
+  (forall outs, snd (wrun (items_write is) s1) = Ok outs -> before_finalize is s2 l2).
+Proof.
+  cbv zeta.
+  destruct (R_wrun _ writer_init pw0 ls_init R_init) as [HR1 _]. rewrite init_spec in HR1. cbn [fst] in HR1.
+  destruct init_run as [_ Hlg1].
+  assert (Hrep1 : replay_ok (pw_dev (fst (wrun writer_init pw0)))) by (apply replay_run; reflexivity).
+  set (s1 := fst (wrun writer_init pw0)) in *.
+  assert (Hsp : wsp (items_write is) (mkLs hdr0 48) (fun _ l' => 48 <= ls_pos l')).
+  { apply (wmono_items_write is); [cbn [ls_pos]; lia|]. intros a l' Hle _. cbn [ls_pos] in Hle. exact Hle. }
+  destruct (log_ok_wrun _ (items_write is) s1 (mkLs hdr0 48) _ HR1 Hsp z2440_hdr0)
+    as (HR2 & Hlg2 & Hz2 & Hres & HQ).
+  { rewrite Hlg1. constructor. }
+  destruct (wsp_prefix _ (items_write is) _ _ Hsp) as [Hlen Hpre]. cbn [ls_data] in Hlen, Hpre.
+  pose proof (replay_run _ (items_write is) s1 Hrep1) as Hrep2.
+  split; [exact HR2|]. split; [exact Hz2|]. split; [exact Hlg2|]. split; [exact Hrep2|].
+  intros outs Hok. rewrite Hres in Hok. constructor; try assumption.
+  exact (HQ outs Hok).
+Qed.
+
+Definition shape_ok (is : list item) (xml : list N) : Prop :=
+  exists pre P0 data4 x,
+    let pl := pages_for (len data4) * 1024 in
+    let data7 := overwrite data4 0 (hdr pl (phys_of_log x) (len xml)) in
+    trace_of (crash_prog is xml) = pre ++ [(0, P0); (0, P0)] /\
+    Forall entry_ok pre /\
+    apply_writes pre = paginate data4 /\
+    final_image (crash_prog is xml) = paginate data7 /\
+    len P0 = 1024 /\ (forall j, j < 1020 -> nthN j P0 = nthN j data7) /\
+    drop 1020 P0 = crc_bytes (take 1020 P0) /\
+    48 <= x /\ slice x (len xml) data4 = xml /\ (xml <> [] -> x + len xml <= len data4) /\
+    (forall j, j < 48 -> nthN j data4 = nthN j hdr0) /\ 48 <= len data4 /\ z2440 data4.
+
+Theorem crash_trace_shape is xml :
+  (snd (wrun (crash_prog is xml) pw_fresh) <> Ok tt /\ Forall entry_ok (trace_of (crash_prog is xml))) \/
+  (snd (wrun (crash_prog is xml) pw_fresh) = Ok tt /\ shape_ok is xml).
+Proof.
+  destruct (items_run is) as (HR2 & Hz2 & Hlg2 & Hrep2 & Hbf). cbv zeta in *.
+  destruct init_run as [Hi _].
+  unfold shape_ok, trace_of, final_image, dev_after. rewrite pw_fresh_pw0.
+  unfold crash_prog. rewrite wrun_bind.
+  destruct (wrun writer_init pw0) as [s1 r1] eqn:E1. cbn [fst snd] in *. subst r1.
+  rewrite wrun_bind.
+  destruct (wrun (items_write is) s1) as [s2 r2] eqn:E2. cbn [fst snd] in *.
+  set (l2 := fst (wrun_spec (items_write is) (mkLs hdr0 48))) in *.
+  destruct r2 as [outs|e|].
+  - right. destruct (Hbf outs eq_refl) as [HR Hpos Hz Hlog Hrep Hhdr Hlen].
+    destruct (finalize_shape s2 l2 xml HR Hpos Hz Hlog Hrep)
+      as (Hok & lg6 & P0 & Hd & Hlg6 & Hpre & Hfin & HlP & HnP & HcP).
+    split; [exact Hok|].
+    exists (rev lg6), P0, (ls_data (ls_write l2 xml)), (ls_pos l2). cbv zeta.
+    rewrite Hd. cbn [rev]. rewrite <- app_assoc. cbn [app].
+    split; [reflexivity|]. split; [apply Forall_rev, Hlg6|]. split; [exact Hpre|].
+    split; [exact Hfin|]. split; [exact HlP|]. split; [exact HnP|]. split; [exact HcP|].
+    split; [exact Hpos|].
+    assert (Hx : forall j, j < 48 -> nthN j (ls_data (ls_write l2 xml)) = nthN j (ls_data l2)).
+    { intros j Hj. destruct xml; cbn [ls_write ls_data]; [reflexivity|].
+      rewrite nthN_overwrite. destruct (N.ltb_spec j (ls_pos l2)); [reflexivity|lia]. }
+    split; [|split; [|split; [|split]]].
+    + destruct xml as [|b r]; [reflexivity|]. cbn [ls_write ls_data]. apply slice_overwrite_same.
+    + intros Hne. destruct xml as [|b r]; [congruence|]. cbn [ls_write ls_data]. rewrite len_overwrite. lia.
+    + intros j Hj. rewrite Hx by exact Hj. apply Hhdr, Hj.
+    + destruct xml as [|b r]; cbn [ls_write ls_data]; [exact Hlen|]. rewrite len_overwrite. lia.
+    + apply z2440_ls_write; [lia|exact Hz].
+  - left. split; [discriminate|]. apply Forall_rev. eapply drop_log_ok; eassumption.
+  - left. split; [discriminate|]. apply Forall_rev. eapply drop_log_ok; eassumption.
+Qed.
+
+(** the writer dropped without [finalize]: every write carries zeros in the XML fields *)
+Theorem unfinalized_trace_ok is : Forall entry_ok (trace_of (unfinalized_prog is)).
+Proof.
+  destruct (items_run is) as (HR2 & Hz2 & Hlg2 & Hrep2 & _). cbv zeta in *.
+  destruct init_run as [Hi _].
+  unfold trace_of, dev_after. rewrite pw_fresh_pw0.
+  unfold unfinalized_prog. rewrite wrun_bind.
+  destruct (wrun writer_init pw0) as [s1 r1] eqn:E1. cbn [fst snd] in *. subst r1.
+  rewrite wrun_bind.
+  destruct (wrun (items_write is) s1) as [s2 r2] eqn:E2. cbn [fst snd] in *.
+  apply Forall_rev.
+  destruct r2 as [outs|e|]; cbn [wrun fst]; eapply drop_log_ok; eassumption.
+Qed.
+
+Print Assumptions crash_trace_shape.
+Print Assumptions unfinalized_trace_ok.
